@@ -202,6 +202,9 @@ def generate(rng, tier="quick"):
 
 
 # --------------------------------------------------------------------------- execution (children)
+from dsim.sim import GC_GUARD, guarded_collect  # noqa: E402  (collections during which the scheduler does not switch)
+
+
 class Stepper(object):
     """Runs one actor's program in micro-steps: one next(), one finishing action, or one whole op."""
 
@@ -244,7 +247,7 @@ class Stepper(object):
         a.activate()
         if self.task is None:
             if a.pending_cycle:
-                gc.collect()
+                guarded_collect()
                 a.pending_cycle = False
                 a.probe("forced_gc_before_next_op")
             if kind not in ITER_OPS:
@@ -364,6 +367,8 @@ class Preempt(object):
 
     def local(self, frame, event, arg):
         if event == "line":
+            if GC_GUARD["depth"]:
+                return self.local           # finalisers run by a harness-initiated collection are not pre-empted
             me = self.idx[self.threading.get_ident()]
             if self.holder != me:
                 self.blocked.discard(me)    # I was blocked in a real lock while the baton moved on; I move again
@@ -390,10 +395,9 @@ class Preempt(object):
                 self.pi += 1
                 site = "%s:%d" % (frame.f_code.co_filename[len(self.pkg):], frame.f_lineno)
                 if to == "gc":
-                    import gc
                     if self.on_gc:
                         self.on_gc(me)
-                    gc.collect()
+                    guarded_collect()
                     self.trace.append([self.step, me, "gc", site])
                 elif to != me and not self.done[to] and to not in self.blocked:
                     if self.on_switch:
@@ -546,7 +550,7 @@ def exec_inter(scn):
             if who == -1:
                 if any(s.suspended() for s in steppers) and any(a.pending_cycle for a in actors):
                     probe("gc_while_other_actor_suspended")
-                gc.collect()
+                guarded_collect()
                 for a in actors:
                     a.pending_cycle = False
                 trace.append("gc")
